@@ -75,7 +75,39 @@ def gen_case(rng):
                 led.apply(o)
                 ops.append(o)
             continue
-        if r < 0.03 and led.resets < U.NVICTIMS:
+        if rng.random() < 0.10:
+            # the class "senders parked without stream credit, then the credit comes back in ONE read made
+            # of several frames / in a SETTINGS frame that carries other settings too"
+            big = rng.choice([65535, 1 << 20])
+            i = rng.randrange(n)
+            kind = rng.random()
+            if kind < 0.35:
+                frames = [['ws', i, rng.choice([60, 1000, big])], ['ws', i, rng.choice([90, big])]]
+            elif kind < 0.5:
+                frames = [['ws', i, big], ['wc', rng.choice(INC)]]
+                rng.shuffle(frames)
+            elif kind < 0.8:
+                items = [['iw', big]] + rng.sample([['mcs', 100], ['mf', rng.choice(MF)], ['unk', 7]],
+                                                   rng.choice([1, 2, 3]))
+                rng.shuffle(items)
+                frames = [['st', items]]
+            else:
+                items = [['mcs', rng.choice([1, 100])], ['iw', big]]
+                rng.shuffle(items)
+                frames = [['st', items], ['wc', rng.choice(INC)]]
+                rng.shuffle(frames)
+            seq = [['r'], ['iw', rng.choice([0, 0, 1])], ['q'],
+                   frames[0] if len(frames) == 1 else ['b', frames], ['q']]
+            if all(led.valid(o) for o in seq[1:2]):
+                led.apply(seq[1])
+                if led.valid(seq[3]):
+                    led.apply(['r'])
+                    led.apply(seq[3])
+                    ops.extend(seq)
+                    continue
+        if rng.random() < 0.22:
+            op = gen_batch(rng, n) if rng.random() < 0.7 else gen_settings(rng)
+        elif r < 0.03 and led.resets < U.NVICTIMS:
             op = ['rst']
         elif r < 0.06:
             op = ['rp']
@@ -122,6 +154,49 @@ def gen_case(rng):
     return case
 
 
+def gen_settings(rng):
+    """ONE SETTINGS frame: INITIAL_WINDOW_SIZE combined with MAX_CONCURRENT_STREAMS / MAX_FRAME_SIZE /
+    an unknown id, in any order (sometimes without INITIAL_WINDOW_SIZE)"""
+    items = []
+    if rng.random() < 0.85:
+        items.append(('iw', rng.choice(IWV)))
+    if rng.random() < 0.6:
+        items.append(('mcs', rng.choice([1, 2, 100, 2 ** 31 - 1])))
+    if rng.random() < 0.4:
+        items.append(('mf', rng.choice(MF)))
+    if rng.random() < 0.3:
+        items.append(('unk', rng.choice([0, 1, 12345])))
+    if not items:
+        items.append(('mcs', 100))
+    rng.shuffle(items)
+    return ['st', [list(it) for it in items]]
+
+
+def gen_frame(rng, n):
+    r = rng.random()
+    if r < 0.4:
+        return ['ws', rng.randrange(n), rng.choice(INC)]
+    if r < 0.65:
+        return ['wc', rng.choice(INC)]
+    if r < 0.8:
+        return ['iw', rng.choice(IWV)]
+    if r < 0.85:
+        return ['mf', rng.choice(MF)]
+    return gen_settings(rng)
+
+
+def gen_batch(rng, n):
+    """several peer frames in ONE read; repeated updates of the same stream are frequent"""
+    k = rng.choice([2, 2, 2, 3, 4])
+    frames = [gen_frame(rng, n)]
+    while len(frames) < k:
+        if frames[-1][0] == 'ws' and rng.random() < 0.5:
+            frames.append(['ws', frames[-1][1], rng.choice(INC)])      # same stream again
+        else:
+            frames.append(gen_frame(rng, n))
+    return ['b', frames]
+
+
 def quiesce(rng):
     return ['qp', rng.choice([1, 1, 2, 3, 5])] if rng.random() < 0.2 else ['q']
 
@@ -144,6 +219,16 @@ class Ledger:
 
     def valid(self, op):
         t = op[0]
+        if t == 'b':
+            import copy
+            led = copy.deepcopy(self)
+            for sub in op[1]:
+                if not led.valid(sub):
+                    return False
+                led.apply(sub)
+            return True
+        if t == 'st':
+            return all(self.valid([k, v]) for k, v in op[1] if k in ('iw', 'mf'))
         if t == 'ws':
             return 1 <= op[2] <= MAXW and self.sw[op[1]] + op[2] <= MAXW
         if t == 'wc':
@@ -156,6 +241,16 @@ class Ledger:
 
     def apply(self, op):
         t = op[0]
+        if t == 'b':
+            for sub in op[1]:
+                self.apply(sub)
+            return
+        if t == 'st':
+            for k, v in op[1]:
+                if k in ('iw', 'mf'):
+                    self.apply([k, v])
+            self.hq = False
+            return
         if t == 'ws':
             self.sw[op[1]] += op[2]
         elif t == 'wc':
@@ -195,8 +290,25 @@ def model_line(case):
         w += [str(ln), str(case['iw0'])]
     w += [str(case['cw0']), str(case['iw0']), str(case['mf0'])]
     for op in case['ops']:
-        w.append(':'.join(str(x) for x in op))
+        w += model_tokens(op)
     return ' '.join(w)
+
+
+def model_tokens(op):
+    """the model's ops are per frame (h2 emits one event per frame); a batch is the sequence of its frames:
+    no sender runs in between, wake-ups are idempotent, so 'all window changes, then all wake-ups' (what
+    h2 + grpclib do for one read) and 'frame by frame' reach the same state"""
+    if op[0] == 'b':
+        return [tk for sub in op[1] for tk in model_tokens(sub)]
+    if op[0] == 'st':
+        d = dict(op[1])
+        out = []
+        if 'iw' in d:
+            out.append('iw:%d' % d['iw'])
+        if 'mf' in d:
+            out.append('mf:%d' % d['mf'])
+        return out or ['of']             # a frame that means nothing to the senders
+    return [':'.join(str(x) for x in op)]
 
 
 def parse_model(line):
@@ -342,6 +454,17 @@ def check_cases(ctx, res, cases):
         res.count('senders:%d' % n)
         for op in case['ops']:
             res.count('op:' + op[0])
+        for op in case['ops']:
+            if op[0] == 'b':
+                res.count('frames delivered in one read', len(op[1]))
+                ws = [sub[1] for sub in op[1] if sub[0] == 'ws']
+                if len(ws) != len(set(ws)):
+                    res.count('read with two WINDOW_UPDATEs for the same stream')
+            for sub in ([op] if op[0] == 'st' else op[1] if op[0] == 'b' else []):
+                keys = [k for k, _ in sub[1]] if sub[0] == 'st' else []
+                if 'iw' in keys and len(keys) > 1:
+                    res.count('SETTINGS frame combining INITIAL_WINDOW_SIZE with ' +
+                              '+'.join(sorted(k for k in keys if k != 'iw')))
         toks = [op[0] for op in case['ops']]
         if any(toks[k] == 'rst' and 'rp' in toks[k + 1:k + 3] for k in range(len(toks))):
             res.count('case with reset while paused + resume re-pausing in its flush')
@@ -397,7 +520,9 @@ def run(ctx):
                 'stream window 0..2^20, connection window 0..2^20 (a burner stream lowers it), max frame '
                 '16384..2^24-1; 3-20 peer actions (stream/connection WINDOW_UPDATE 1..2^20, '
                 'INITIAL_WINDOW_SIZE up/down incl. 0 and below what was already sent, MAX_FRAME_SIZE, '
-                'pause, resume, reset_nowait of another open stream (<= 4 per case), resume that re-pauses from inside '
+                'single SETTINGS frames combining INITIAL_WINDOW_SIZE with MAX_CONCURRENT_STREAMS / MAX_FRAME_SIZE / an '
+                'unknown id in any order, 2-4 peer frames delivered in ONE read (same-stream WINDOW_UPDATE pairs '
+                'frequent), pause, resume, reset_nowait of another open stream (<= 4 per case), resume that re-pauses from inside '
                 'its flush write; 12% of the steps inject [pause, reset, re-pausing resume, credit grant]) applied in batches between FIFO runs to quiescence, 20% of the runs with '
                 'the transport pausing from inside its k-th write; 80% end with ample credit + resume. '
                 'distinct = distinct (side, api, N, sequence of (blocked/done pattern, frames emitted '
